@@ -48,6 +48,11 @@ func waiter(b *broadcast.Broadcast, ctx context.Context, k, errAt int64, errObj 
 			lastTrue = false
 			return false, errObj
 		}
+		if errAt < 0 && x >= -errAt {
+			// unusual predicate: reports done together with an error: the error must come back unchanged
+			lastTrue = false
+			return true, errObj
+		}
 		lastTrue = x >= k
 		return lastTrue, nil
 	})
@@ -166,6 +171,52 @@ func init() {
 			T("W", func() { waiter(&b, bg, 2, 1, errE) })
 			T("B1", func() { bump(&b, 0) })
 			T("B2", func() { bump(&b, 2) })
+		},
+	})
+	eng.Register(&eng.Scenario{
+		Name: "bcast-prederr-done", Props: []string{"C03"}, MustFinish: true, ObsNames: stdObs,
+		Doc:   "Broadcast: the predicate returns (true, error) once x>=1 (on the first call or on a re-check after a broadcast): Wait must return exactly that error object",
+		Quick: eng.Bounds{PB: 2}, Thorough: eng.Bounds{PB: 3},
+		Body: func() {
+			var b broadcast.Broadcast
+			T("W", func() { waiter(&b, bg, 5, -1, errE) })
+			T("B1", func() { bump(&b, 0) })
+		},
+	})
+	eng.Register(&eng.Scenario{
+		Name: "bcast-panic-cb", Props: []string{"C03"}, MustFinish: true, ObsNames: stdObs, PanicsOK: true, NoRace: true,
+		Doc:   "Broadcast: a bumper's callback panics after {x++; broadcast()} (the caller recovers), through HoldLock / TryHoldLock / HoldLockMaybeAsync (choice): the lock must be released so that the waiter re-checks and returns, and a later HoldLock works",
+		Quick: eng.Bounds{PB: 2}, Thorough: eng.Bounds{PB: 3},
+		Body: func() {
+			var b broadcast.Broadcast
+			vsched.OnQuiescent(c03Quiescent(1))
+			how := vsched.Choose(3)
+			T("W", func() { waiter(&b, bg, 1, 0, nil) })
+			T("B", func() {
+				defer func() { recover() }()
+				cb := func(bc func(), _ func() <-chan struct{}) {
+					vsched.CtrAdd(cX, 1)
+					vsched.CtrAdd(cNB, 1)
+					bc()
+					panic("callback failed after broadcasting")
+				}
+				switch how {
+				case 0:
+					b.HoldLock(cb)
+				case 1:
+					if !b.TryHoldLock(cb) {
+						b.HoldLock(cb)
+					}
+				case 2:
+					// (if the lock is busy the callback runs - and panics - on a goroutine of the
+					// library, which no caller can recover: those executions are not judged)
+					b.HoldLockMaybeAsync(cb)
+				}
+			})
+			vsched.Settle()
+			if !b.TryHoldLock(func(func(), func() <-chan struct{}) {}) {
+				fail("C03.lock-leaked", "the Broadcast lock is still held after a callback panicked")
+			}
 		},
 	})
 	eng.Register(&eng.Scenario{
